@@ -91,12 +91,40 @@ def gen_path(R):
             cur = t
         if wrap and len(segs) == n_before + 1:
             segs[-1] = ("ctxshape", segs[-1], wrap)
-    return start, segs, r.choice(["cw", "ccw"]), Fraction(r.choice([16, 32, 64]), G)
+    path = (start, segs, r.choice(["cw", "ccw"]), Fraction(r.choice([16, 32, 64]), G))
+    if r.random() < 0.35 and not any(s[0] == "dwellctx" or (s[0] == "ctxshape" and s[1][0] == "dwellctx") for s in segs):
+        # the same toolpath far from the origin, inside an axes box that holds every waypoint but none of the (small)
+        # relative offsets: a bounds check applied to what is *emitted* instead of to the target refuses one mode only
+        D = r.choice([(512, 768, 384), (-640, 448, -320), (320, -704, 576)])
+        path = shift_path(path, tuple(Fraction(d) for d in D))
+    return path
+
+
+def shift_path(path, D):
+    start, segs, direction, res = path[:4]
+    sh = lambda t: tuple(None if v is None else v + d for v, d in zip(t, D))
+
+    def one(seg):
+        k, t, extra = seg[:3]
+        if k == "ctxshape":
+            return (k, one(t), extra)
+        if k in ("polyline", "spline"):
+            return (k, [sh(p) for p in t], extra)
+        if k == "circle":
+            return seg
+        if k == "parametric":
+            return (k, sh(t), sh(extra))
+        if k == "ctxnest":
+            return (k, tuple(sh(p) for p in t), extra)
+        return (k, sh(t), extra) + tuple(seg[3:])
+    box = tuple(d - 200 for d in D) + tuple(d + 200 for d in D)
+    return (sh(start), [one(s) for s in segs], direction, res, box)
 
 
 def lines_for(path, relative: bool):
-    start, segs, direction, res = path
-    out = ["boundsaxes -1000 -1000 -1000 1000 1000 1000",
+    start, segs, direction, res = path[:4]
+    box = path[4] if len(path) > 4 else (-1000, -1000, -1000, 1000, 1000, 1000)
+    out = ["boundsaxes " + " ".join(show(Fraction(v)) for v in box),
            "setaxis x=%s y=%s z=%s" % tuple(show(v) for v in start), "dir " + direction, "res " + show(res)]
     if relative:
         out.append("dist rel")
